@@ -250,45 +250,11 @@ def setters(cx):
 
 def place(cx):
     repo, res = cx.repo, cx.res
-    # 1. exact branch of occupancy_shape_from_state
-    fk = cx.fn(SH, None, "occupancy_shape_from_state")
-    params = [a.arg for a in fk.fn.args.args]
-    if len(params) != 2:
-        raise AnalysisError("occupancy_shape_from_state no longer takes (shape, state)")
-    shp, st = params
-    rd = ReachingDefs(fk.fn)
-    calls = [c for c in walk_no_nested(fk.fn) if isinstance(c, ast.Call) and isinstance(c.func, ast.Attribute) and c.func.attr == "rotate_translate_local" and norm(c.func.value) == shp]
-    res.check("OCC-PLACE", "occupancy_shape_from_state places the shape parameter", len(calls) >= 1, fk.mod, fk.fn, "no %s.rotate_translate_local(..) in occupancy_shape_from_state" % shp, "the exact occupancy is not computed by placing the obstacle shape", qualname=fk.name)
-    for c in calls:
-        args = [canon(a, rd, rd.stmt_of(c), params) for a in c.args] + ["%s=%s" % (k.arg, canon(k.value, rd, rd.stmt_of(c), params)) for k in c.keywords]
-        ok = args in (["%s.position" % st, "%s.orientation" % st], ["translation=%s.position" % st, "angle=%s.orientation" % st])
-        res.check("OCC-PLACE", "exact occupancy = shape.rotate_translate_local(state.position, state.orientation)", ok, fk.mod, c, "rotate_translate_local(%s)" % ", ".join(args), "the shape is not placed at the position with the orientation of the state", qualname=fk.name)
-        guards = dominating_guards(fk.mod, c, stop=fk.fn)
-        txt = sorted(("" if pol else "not ") + norm(t) for t, pol in guards)
-        ok = any((not pol) and "is_uncertain_position" in norm(t) for t, pol in guards) and any((not pol) and "is_uncertain_orientation" in norm(t) for t, pol in guards)
-        res.check("OCC-PLACE", "exact placement only for certain position and orientation", ok, fk.mod, c, "rotate_translate_local under %s" % txt, "the exact placement is used although position or orientation is a set", qualname=fk.name)
-    # the uncertain branch builds a rectangle centred at the (centre of the) position, oriented at the reference angle
-    rects = [c for c in walk_no_nested(fk.fn) if isinstance(c, ast.Call) and call_name(c) == "Rectangle"]
-    for c in rects:
-        if len(c.args) == 4:
-            cen = canon(c.args[2], None, None, params)
-            ok = True
-            ds = rd.defs(cen, c) if isinstance(c.args[2], ast.Name) else []
-            srcs = sorted({norm(d.node) for d in ds if d.node is not None})
-            ok = set(srcs) <= {"%s.position.center" % st, "%s.position" % st} and bool(srcs)
-            res.check("OCC-PLACE", "enclosing rectangle is centred at the state's position", ok, fk.mod, c, "Rectangle(.., center=%s <- %s)" % (cen, srcs), "the enclosing occupancy is not centred where the obstacle is", qualname=fk.name)
-    # the position region is measured in the frame of the reference orientation: rotated by its negative
-    for c in rects:
-        if len(c.args) != 4:
-            continue
-        ref = canon(c.args[3], rd, rd.stmt_of(c), params)
-        rots = [x for x in walk_no_nested(fk.fn) if isinstance(x, ast.Call) and isinstance(x.func, ast.Attribute) and x.func.attr == "rotate_translate_local" and canon(x.func.value, rd, rd.stmt_of(x), params) == "%s.position" % st]
-        res.check("OCC-PLACE", "uncertain position region is re-expressed in the reference frame", len(rots) >= 1, fk.mod, c, "%d rotations of %s.position" % (len(rots), st), "the extents of the position region are not measured along the reference orientation", qualname=fk.name)
-        for x in rots:
-            a = x.args[1] if len(x.args) > 1 else None
-            ok = a is not None and isinstance(a, ast.UnaryOp) and isinstance(a.op, ast.USub) and norm(a.operand) == norm(c.args[3])
-            ok = ok and norm(x.args[0]).replace(" ", "") in ("np.array([0,0])", "np.array([0.0,0.0])", "np.zeros(2)")
-            res.check("OCC-PLACE", "position region rotated by minus the reference orientation about the origin", ok, fk.mod, x, norm(x), "the region is rotated the wrong way (or shifted): its extents are measured in another frame than the enclosing rectangle's, which then does not cover every admissible position", qualname=fk.name)
+    # 1. occupancy_shape_from_state: decided by abstract evaluation (c04ev.place_rules) — exact placement, and for
+    # uncertain states centre, reference orientation, reference frame of the position region and enclosure
+    from . import c04ev as _c04ev
+
+    _c04ev.place_rules(repo, res, "OCC-PLACE")
     # signature roles of rotate_translate_local
     for cname in ("Shape", "Rectangle", "Circle", "Polygon", "ShapeGroup"):
         c = repo.mod(SH).classes.get(cname)
@@ -299,6 +265,7 @@ def place(cx):
             continue
         ps = [a.arg for a in f.args.args][1:]
         res.check("OCC-PLACE", "%s.rotate_translate_local(translation, angle) parameter order" % cname, len(ps) == 2 and "transl" in ps[0] and "angle" in ps[1], c.mod, f, "%s.rotate_translate_local(%s)" % (cname, ", ".join(ps)), "position and orientation arrive in the wrong roles", qualname="%s.rotate_translate_local" % cname)
+    _polygon_pivot(repo, res)
     # 2. headings from velocity components (arguments canonicalised: locals and unpacked values inlined)
     from ..flowtools import mentions
 
@@ -608,6 +575,78 @@ def scenario(cx):
 
 
 
+
+
+def _polygon_pivot(repo, res):
+    """Polygon.rotate_translate_local, evaluated with symbolic vertices: the polygon is turned by the given angle (in
+    radians) about the point its `center` property reports — the centroid — and then moved by the translation.  The
+    shapely interface is the fixed part: affinity.rotate(geom, angle, origin, use_radians) with origin 'centroid' /
+    'center' (bounding box) / a point."""
+    from ..strdom import Ctor, Ev, Obj, Str, Sym, Term, Undecided, _Raise, show
+
+    poly = repo.cls(SH, "Polygon")
+    fn = poly.methods.get("rotate_translate_local")
+    if fn is None:
+        raise AnalysisError("Polygon.rotate_translate_local missing")
+    qn = "Polygon.rotate_translate_local"
+    ev = Ev(repo)
+    ev.pure_modules = {"np", "numpy", "math", "shapely"}
+    ev.assume_valid = True
+    V, tr, an = Sym("vertices", "num"), Sym("translation", "num"), Sym("angle", "num")
+    G = Ctor("shapely.geometry.Polygon", {"arg0": V}, kind="call")
+    me = Obj(poly, {"_vertices": V, "_shapely_polygon": G}, label="polygon")
+
+    def chain(v):
+        out = []
+        while isinstance(v, Ctor) and v.args:
+            out.append(v.name)
+            v = list(v.args.values())[0]
+        return out, v
+
+    bad = None
+    try:
+        centre = ev.getattr(me, "center", poly.node, poly.mod)
+        names, leaf = chain(centre)
+        centre_is_centroid = ".centroid" in names and leaf is V
+        if not centre_is_centroid:
+            raise Undecided("Polygon.center is %s" % show(centre))
+        r = ev.call_fn(ev.bind(fn, poly, me), [tr, an], {}, fn)
+        verts = list(r.args.values())[0] if isinstance(r, Ctor) and r.name == "Polygon" and r.args else None
+        moved = None
+        if isinstance(verts, Term) and verts.op == "+" and any(x is tr for x in verts.args):
+            moved = [x for x in verts.args if x is not tr][0]
+        if moved is None:
+            raise Undecided("the result is %s" % show(r))
+        names, leaf = chain(moved)
+        rot = moved
+        while isinstance(rot, Ctor) and not rot.name.endswith("affinity.rotate") and rot.args:
+            rot = list(rot.args.values())[0]
+        if not (isinstance(rot, Ctor) and rot.name.endswith("affinity.rotate")):
+            raise Undecided("the moved vertices are %s" % show(moved))
+        a = rot.args
+        geom, angle = a.get("geom", a.get("arg0")), a.get("angle", a.get("arg1"))
+        origin = a.get("origin", a.get("arg2", Str.lit("center")))
+        radians = a.get("use_radians", a.get("arg3", False))
+        if not (isinstance(geom, Ctor) and geom.name.endswith("Polygon") and list(geom.args.values())[0] is V):
+            bad = "turns %s, not the polygon of the vertices" % show(geom)
+        elif angle is not an:
+            bad = "turns the polygon by %s" % show(angle)
+        elif radians is not True:
+            bad = "hands the angle to shapely as degrees (use_radians=%s)" % show(radians)
+        elif isinstance(origin, Str) and origin.is_lit():
+            if origin.text() != "centroid":
+                bad = "turns the polygon about its %s, the polygon's centre (Polygon.center) is its centroid" % origin.text()
+        else:
+            onames, oleaf = chain(origin)
+            if not (".centroid" in onames and oleaf is V) and origin is not centre:
+                raise Undecided("rotation origin %s" % show(origin))
+        if bad is None and ".exterior" not in names:
+            raise Undecided("the moved vertices are %s" % show(moved))
+    except _Raise as x:
+        bad = "raises %s" % x.what
+    except Undecided as x:
+        raise AnalysisError("%s: %s" % (qn, x))
+    res.check("OCC-PLACE", "%s: turned by the angle (radians) about the polygon's centre, then moved by the translation" % qn, bad is None, poly.mod, fn, "%s %s" % (qn, bad), "a polygon-shaped obstacle is not placed at its state: turned about another pivot, by another angle, or not moved", qualname=qn)
 
 
 def run(repo, res, tier):
